@@ -227,12 +227,14 @@ def d3_d4(prog, rep):
         ln = norm(ms[0].arg(2))
         dst = norm(bb[0].arg(1))
         rlen = None
+        rdef = None
         for e in f.all_elems():
             if e.is_assign and e.op == "=":
                 v = norm(e.kid(1))
                 # BN_num_bytes(x) is (BN_num_bits(x) + 7) / 8
                 if v == ("/", ("+", ("call", "BN_num_bits", norm(bb[0].arg(0))), ("c", 7)), ("c", 8)):
                     rlen = norm(e.kid(0))
+                    rdef = e
         ok = rlen is not None and ln == ("-", ("c", 256), rlen) and dst == ("&", ("[]", norm(ms[0].arg(0)), ln)) and norm(ms[0].arg(1)) == ("c", 0) \
             and norm(ms[0].arg(0)) == ("v", f.params[0]["name"], f.params[0]["id"])
         if ok:
@@ -240,6 +242,23 @@ def d3_d4(prog, rep):
             ok = any(op == ">=" and L == rlen and R == ("c", 0) for op, L, R in at) and any(op == "<=" and L == rlen and R == ("c", 256) for op, L, R in at)
             ok = ok and f.dominates(ms[0], bb[0])
     rep.check(ok, "D3-padding", "left padding: memset(r, 0, 256 - rlen) and BN_bn2bin at &r[256 - rlen] behind 0 <= rlen <= 256", f.loc, "", function=f.name, construct="padding")
+    if ok and rdef is not None:
+        # the length is that of the value exported: nothing writes the BIGNUM between measuring it and exporting it
+        X = norm(bb[0].arg(0))
+        after = f.reach_from(rdef.block.id) | {rdef.block.id}
+        stale = []
+        for c in f.calls():
+            if c.callee in ("BN_num_bits", "BN_bn2bin") or c is bb[0]:
+                continue
+            if not any(a is not None and norm(a) == X for a in c.args):
+                continue
+            between = (c.block.id in after and (c.block.id != rdef.block.id or c.i > rdef.i)) and \
+                (bb[0].block.id in f.reach_from(c.block.id) or (bb[0].block.id == c.block.id and bb[0].i > c.i))
+            if between:
+                stale.append(c)
+        rep.check(not stale, "D3-padding", "the length measured is the length of the value exported", rdef.where,
+                  "the BIGNUM is passed to %s between BN_num_bytes and BN_bn2bin: offset and padding are computed from an intermediate value, so a result "
+                  "of different byte length is written shifted (possibly past the buffer)" % [c.callee for c in stale], function=f.name, construct="padding-fresh")
     s = u.func("crypto_dh_sanitycheck")
     rets = {}
     for r in s.returns():
